@@ -254,6 +254,7 @@ struct DecodeResult {
   std::vector<int> synth_ret, blockin_ret, nout;   // per audio packet
   std::vector<long> bits_used;                     // oggpack_bits(&vb.opb) after synthesis
   PCM pcm; int channels = 0; long rate = 0;
+  bool tail_sane = true;   // what lies in the decoder's buffer beyond the delivered audio (trimmed samples, the unfinished half block) is finite
   int64_t total() const { return pcm.empty() ? 0 : (int64_t)pcm[0].size(); }
 };
 static inline bool decode_packets(const LStream &s, DecodeResult &d, bool halfrate = false, size_t first_packet = 0) {
@@ -279,6 +280,7 @@ static inline bool decode_packets(const LStream &s, DecodeResult &d, bool halfra
         }
         d.blockin_ret.push_back(br); d.nout.push_back(n);
       }
+      { float **pcm; int m = vorbis_synthesis_lapout(&vd, &pcm); for (int c = 0; c < vi.channels && m > 0; c++) for (int i = 0; i < m; i++) if (!(fabsf(pcm[c][i]) < 1e18f)) d.tail_sane = false; }
       vorbis_block_clear(&vb); vorbis_dsp_clear(&vd);
     } else ok = false;
   }
